@@ -91,7 +91,17 @@ fn process_request_obj(request: &Request, dbs: &Arc<Databases>, client: &mut Cli
             &dbs,
             &client,
             &key,
-            &|_db| remove_key(&key, _db),
+            &|_db| {
+                let respose = remove_key(&key, _db);
+                if !dbs.is_primary() {
+                    // Like a set: the primary must hear about it to apply and replicate it
+                    send_message_to_primary(
+                        get_replicate_remove_message(_db.name.clone(), key.clone()),
+                        dbs,
+                    );
+                }
+                respose
+            },
             PermissionKind::Remove,
         ),
 
